@@ -152,9 +152,11 @@ theorem C13_clean_keeps_window (cfg : Cfg) (hsz : 0 < cfg.size) (s : State) (h :
   run_refused cfg evs _ (step_invW cfg s ev h) n (step_accept cfg hsz s ev h n v hacc) hnc
 
 /-- `_destroy` persists the exact next number and the exact window: shutting down cleanly and
-loading again resumes with the same counter (no numbers wasted) and the same window. -/
+loading again resumes with the same counter (no numbers wasted) and the same window (a window of
+the configured size without stray bits — what every window of a process that keeps its `window`
+setting is; `initialize_from_persisted` moves a wider one up, see `RW.fromPersisted`). -/
 theorem C13_clean_roundtrip (cfg : Cfg) (d : Dir) (m : Mem)
-    (hsize : ∀ w, m.window = some w → w.size = cfg.size) (echo : Nat) :
+    (hsize : ∀ w, m.window = some w → w.size = cfg.size ∧ w.bitfield < 2 ^ cfg.size) (echo : Nat) :
     (run cfg { dir := d, mem := some m } [.cleanShutdown none, .load echo]).1.mem =
       some { ssn := m.ssn, persisted := m.ssn, chunk := cfg.start, windowPersisted := true,
              window := m.window, echo := echo } := by
@@ -162,11 +164,11 @@ theorem C13_clean_roundtrip (cfg : Cfg) (d : Dir) (m : Mem)
   cases hw : m.window with
   | none => simp [persistWindow]
   | some w =>
-    have := hsize w hw
+    obtain ⟨h1, h2⟩ := hsize w hw
     obtain ⟨sz, i, b⟩ := w
-    simp only at this
-    subst this
-    simp [persistWindow]
+    simp only at h1 h2
+    subst h1
+    simp [persistWindow, RW.fromPersisted_of_fits h2]
 
 /-- the invariants hold along every history from a directory with no process running -/
 theorem C13_invariants_reachable (cfg : Cfg) (d : Dir) (evs : List Ev) :
